@@ -363,3 +363,19 @@ class IntMap(Sort):
         if hasattr(v, "__dict__") and not isinstance(v, dict):
             v = {k: x for k, x in v.__dict__.items() if k != "_cls"}
         return {int(k): x for k, x in v.items()}
+
+
+class Str(Sort):
+    """a symbolic text string (z3 string theory; kept quantifier-free by the contracts that use it)"""
+
+    def __init__(self, samples=None):
+        self.samples = samples or ["Identity-H", "../x", "/tmp/evil", "a/b", "", "UniJIS", "..", "x\0y", "90ms-RKSJ-H"]
+
+    def fresh(self, ctx, name):
+        return z3.String(ctx.fresh_name(name))
+
+    def sample(self, rng):
+        return rng.choice(self.samples)
+
+    def from_model(self, ev, v):
+        return ev(v)
